@@ -10,4 +10,4 @@ Extraction "model.ml" pinned repaired d_trace d_spec_trace u_trace_z u_spec_trac
   d_path_case u_path_case d_path_spec u_path_spec dw_dj_case uw_dj_case dw_dj_spec uw_dj_spec
   bin_load_case bin_load_spec d_binw_case u_binw_case d_binw_spec u_binw_spec text_load_case text_load_spec d_txtw_case u_txtw_case txtw_spec
   d_conc_case u_conc_case d_conc_spec u_conc_spec dm_conc_case um_conc_case dw_conc_case uw_conc_case m_conc_spec w_conc_spec
-  f_case f_spec fop_add fop_set djf_case djf_spec.
+  f_case f_spec fop_add fop_set djf_case djf_spec feq_case.
